@@ -548,6 +548,33 @@ def run(ctx):
                 r9.check(not lc, "statement-name-key:%s.%s" % (msgn, f), "%s.%s (key of the client's statement map) keeps the client's bytes" % (msgn, f),
                          "the statement name %s.%s, which keys the client's own statement map, is decoded lossily: two names of one client that differ only in bytes that are not valid UTF-8 ('s\\xE9' / 's\\xE8') become the same key, the second Parse replaces the first and a Bind of the first name runs the second text" % (msgn, f))
 
+    # ---------------- R10 server-side statement names are unique for the whole process
+    r10 = ctx.rule("C08-R10", "the server-side name given to a cached statement (PGCAT_n) is unique in the process: it is numbered from a static counter with an atomic fetch_add, not from state that a rebuilt pool or cache starts over", floor=2)
+    rw = ctx.body("pgcat::messages::Parse::rewrite", r10)
+    if rw:
+        fmt_ops = []
+        for blk, i, st in rw.assigns():
+            if proj_fields(st["lhs"])[-1:] == ["name"]:
+                fmt_ops.append(st["rv"].get("op") or (st["rv"].get("ops") or [None])[0])
+        srcs = set()
+        statics = set()
+        params = set()
+        for op in fmt_ops:
+            for o in origins(rw, op, taint=True):
+                if o.kind == "call":
+                    srcs.add(o.call.name.split("::")[-1])
+                if o.kind == "const" and isinstance(o.extra, dict) and o.extra.get("static"):
+                    statics.add(o.extra["static"])
+                if o.kind == "static":
+                    statics.add(str(o.what))
+                if o.kind == "param" and o.what != 1:
+                    params.add(o.what)
+        r10.check(bool(fmt_ops) and "fetch_add" in srcs and bool(statics), "name-from-static-counter", "Parse::rewrite numbers the name with fetch_add on a static (%s)" % sorted(statics),
+                  "Parse::rewrite does not take the number from a static atomic counter (sources: %s%s): names are unique only within whatever owns the counter - after a reload that rebuilds the pool and its cache the numbering starts over, "
+                  "long-lived clients still hold old PGCAT_k names for other texts, and one client's Bind runs another client's statement" % (sorted(srcs), ", a parameter" if params else ""))
+        callers = sorted({c.body.name.replace("::{closure#0}", "").split("::")[-1] for c in F.all_calls("pgcat::messages::Parse::rewrite") if "::test" not in c.body.name})
+        r10.check(bool(callers), "rewrite-callers", "Parse::rewrite is called from %s" % callers, "Parse::rewrite has no caller")
+
     # ---------------- R6
     r6 = ctx.rule("C08-R6", "rewriting changes only the statement name (Parse::rewrite, Describe::rename)", floor=2)
     for fn, fld in (("pgcat::messages::Parse::rewrite", "name"), ("pgcat::messages::Describe::rename", "statement_name")):
